@@ -71,6 +71,19 @@ func GenC13() *rapid.Generator[C13Case] {
 		default:
 			c.Net = cyc.Draw(t, "cyclic")
 		}
+		if c.Modular == nil && rapid.IntRange(0, 14).Draw(t, "failing activation") == 7 {
+			// a neuron whose activation type is not registered: activations that reach it fail; a failed activation is
+			// part of "all prior activation histories" and must leave nothing behind either
+			var neurons []int
+			for i, n := range c.Net.Nodes {
+				if !isSensorRole(n.Role) {
+					neurons = append(neurons, i)
+				}
+			}
+			if len(neurons) > 0 {
+				c.Net.Nodes[neurons[rapid.IntRange(0, len(neurons)-1).Draw(t, "failing neuron")]].Act = 0
+			}
+		}
 		if c.Modular != nil {
 			for _, n := range c.Modular.Nodes {
 				if n.Role == roleInput {
@@ -186,6 +199,12 @@ func CheckC13(c C13Case, rec *Rec) error {
 		rec.Class("network with cycles")
 	default:
 		rec.Class("feed-forward network")
+	}
+	for _, n := range c.Net.Nodes {
+		if n.Act == 0 && !isSensorRole(n.Role) && c.Modular == nil {
+			rec.Class("neuron with an unregistered activation type (activations fail)")
+			break
+		}
 	}
 	if c.Fast {
 		rec.Class("fast solver")
